@@ -21,6 +21,7 @@ def run(prog, rep, tier):
     apply(rep, "N3", "`E?`, `E*`, `E+` and if-then-else build their documented trees for every kind of operand (grammar actions interpreted from source)", r_lex.n3(prog), 4)
     apply(rep, "N4", "string literals denote the documented bytes: named, octal, hex, end-of-line escapes, raw literals, continuation, %% (scanner simulated: rule selection from the patterns, actions interpreted)", r_lex.n4(prog), 8)
     apply(rep, "N5", "blanks, newlines and whitespace-delimited comments of all three styles between any two tokens do not change the token sequence (scanner simulated)", r_lex.n5(prog), 4)
+    apply(rep, "N6", "every %( ... %) splice of a literal is delimited on its own, whatever it or the previous splice contains (scanner simulated)", r_lex.n6(prog), 2)
     import r_tables
     apply(rep, "U1", "the simplifier's erase-remove drops the whole removed tail", r_tables.u1(prog), 1)
     apply(rep, "Y2", "every %( ... %) splice of a literal is scanned from the same initial state as the directive forms", r_lex.y2(prog), 2)
